@@ -107,8 +107,41 @@ static int contend(void) {
     printf("OK contend\n"); return 0;
 }
 
+/* "twotables": every thread works on its OWN private container (no sharing at all), so nothing one thread does may
+   influence another thread's table: hidden shared state inside the library (file-scope statics) shows up here. */
+static void *private_worker(void *p) {
+    targ *a = p; unsigned rs = a->rs; int bad = 0;
+    qtreetbl_t *t = qtreetbl(0); qhashtbl_t *h = qhashtbl(7, 0); qlisttbl_t *l = qlisttbl(QLISTTBL_UNIQUE);
+    for (int j = 0; j < K && !bad; j++) {
+        char key[32]; snprintf(key, sizeof key, "p%d_%04d", a->t, (int)(rnd(&rs) % (K / 2 + 1))); unsigned long long e = mk(a->t, j);
+        t->put(t, key, &e, sizeof e); h->put(h, key, &e, sizeof e); l->put(l, key, &e, sizeof e);
+        size_t sz = 0; unsigned long long *v = t->get(t, key, &sz, true);
+        if (!v || *v != e) bad = 1; free(v);
+        v = h->get(h, key, &sz, true); if (!v || *v != e) bad = 2; free(v);
+        v = l->get(l, key, &sz, true); if (!v || *v != e) bad = 3; free(v);
+        if (j % 3 == 2) { t->remove(t, key); h->remove(h, key); l->remove(l, key); if (t->get(t, key, NULL, false)) bad = 4; }
+        if (qtreetbl_check(t) != 0) bad = 5;
+        if (t->size(t) != h->size(h) || h->size(h) != l->size(l)) bad = 6;
+    }
+    /* every key of the tree is ours and in ascending order */
+    qtreetbl_obj_t o; memset(&o, 0, sizeof o); char prev[32] = ""; size_t n = 0; char pre[16]; snprintf(pre, sizeof pre, "p%d_", a->t);
+    while (!bad && t->getnext(t, &o, false)) { n++; if (strncmp(o.name, pre, strlen(pre)) || strcmp(prev, o.name) >= 0) bad = 7; snprintf(prev, sizeof prev, "%s", (char *)o.name); }
+    if (!bad && n != t->size(t)) bad = 8;
+    if (bad) fail("private table disturbed, clause", bad, a->t);
+    t->free(t); h->free(h); l->free(l);
+    return NULL;
+}
+static int twotables(int T_, int K_, unsigned seed) {
+    T = T_; K = K_; pthread_t th[16]; targ a[16];
+    for (int t = 0; t < T; t++) { a[t].t = t; a[t].rs = seed * 131 + t; pthread_create(&th[t], NULL, private_worker, &a[t]); }
+    for (int t = 0; t < T; t++) pthread_join(th[t], NULL);
+    if (failed) { printf("FAIL %s\n", failmsg); return 1; }
+    printf("OK twotables\n"); return 0;
+}
+
 int main(int argc, char **argv) {
     if (argc > 1 && !strcmp(argv[1], "contend")) return contend();
+    if (argc > 4 && !strcmp(argv[1], "twotables")) return twotables(atoi(argv[2]), atoi(argv[3]), (unsigned)atoi(argv[4]));
     kind = argv[1]; T = atoi(argv[2]); K = atoi(argv[3]); seed0 = (unsigned)atoi(argv[4]);
     if (!strcmp(kind, "tree")) cont = qtreetbl(QTREETBL_THREADSAFE);
     else if (!strcmp(kind, "hash")) cont = qhashtbl(7, QHASHTBL_THREADSAFE);
